@@ -49,9 +49,9 @@ Qed.
 
 (* one limited user: uid 1, cap 2, credits 1000/1000, expiry 100; the clock starts at 10 *)
 Definition db1 : dbmap := fun u => if N.eqb u 1 then Some (mkDb 2 (1000, 1000)%Z 100) else None.
-Definition cfg_prefix : cfg := mkCfg true false (fun _ => false).
-Definition cfg_now : cfg := mkCfg false false (fun _ => false).
-Definition cfg_patched : cfg := mkCfg false true (fun _ => false).
+Definition cfg_prefix : cfg := mkCfg true false (fun _ => false) (fun _ => 0%Z).
+Definition cfg_now : cfg := mkCfg false false (fun _ => false) (fun _ => 0%Z).
+Definition cfg_patched : cfg := mkCfg false true (fun _ => false) (fun _ => 0%Z).
 
 Fixpoint runs (t : nat) (n : nat) : list label :=
   match n with O => [] | S m => Run t 0 :: runs t m end.
